@@ -141,6 +141,32 @@ func ListDir(srv nfstypes.NFS_PROGRAM_NFS_V3_handler, dir []byte) ([]Ent, error)
 	return all, fmt.Errorf("READDIRPLUS: enumeration did not end")
 }
 
+// ListDirPaged enumerates a directory page by page with the given size limit (READDIR: count; READDIRPLUS: maxcount,
+// dircount unlimited), passing back the cookie of the last entry received.
+func ListDirPaged(srv nfstypes.NFS_PROGRAM_NFS_V3_handler, dir []byte, plus bool, limit uint64) ([]Ent, error) {
+	var all []Ent
+	cookie := uint64(0)
+	k := "READDIR"
+	if plus {
+		k = "READDIRPLUS"
+	}
+	for i := 0; i < 100000; i++ {
+		r := Exec(srv, Op{K: k, Cookie: cookie, Cnt: limit, DirCnt: 1 << 30, MaxCnt: uint32(limit)}, dir, nil)
+		if !r.OK() {
+			return all, fmt.Errorf("%s(limit %d) status %d at cookie %d", k, limit, r.Status, cookie)
+		}
+		all = append(all, r.Ents...)
+		if r.Eof {
+			return all, nil
+		}
+		if len(r.Ents) == 0 {
+			return all, fmt.Errorf("%s(limit %d): empty page without eof at cookie %d", k, limit, cookie)
+		}
+		cookie = r.Ents[len(r.Ents)-1].Cookie
+	}
+	return all, fmt.Errorf("%s(limit %d): enumeration did not end", k, limit)
+}
+
 // Dump walks the whole tree through the API only.
 func Dump(srv nfstypes.NFS_PROGRAM_NFS_V3_handler, p *Probe) (map[string]Node, error) {
 	out := map[string]Node{}
